@@ -70,6 +70,17 @@ def make_cases(ctx, rng):
             c["share2"] = True      # pairs of distinct spectra that agree on the first two key columns
         cases.append(c)
         idx += 1
+    # outside the domain boundary B-02: one crowded spectrum with more PSMs than rows div folds.  The fold construction may
+    # refuse such a table; if it hands back scores, the leak clauses still apply (BrewTrace: LeakClauses)
+    for j in range(80 if ctx.quick else 1500):
+        folds = 2 + j % 3
+        n = int(rng.integers(2 * folds, 5 * folds + 1))
+        k = n // folds + 1 + j % 2
+        shape = [1] * min(k, n - 1) + list(range(2, 2 + n - min(k, n - 1)))
+        shape = [shape[int(i)] for i in rng.permutation(len(shape))]
+        cases.append({"files": [{"rows": rows_from_shape(shape, rng)}], "folds": folds, "workers": 1 + j % 2, "cap": None, "keyw": 1 + j % 4,
+                      "fmt": "pin", "thr": [1, 1], "train_thr": [1, 1], "pred_chunk": [2, 700000][j % 2], "read_chunk": 200000,
+                      "seed": j % 5, "est": "feat", "override": True, "ood": True})
     # larger random datasets, several estimators incl. real learners
     nbig = 12 if ctx.quick else 200
     for j in range(nbig):
@@ -230,7 +241,7 @@ def run(ctx):
     ctx.phase("generation")
     cases = make_cases(ctx, rng)
     for i, c in enumerate(cases):
-        if i % 25 == 0 and c.get("est") == "feat":
+        if i % 25 == 0 and c.get("est") == "feat" and not c.get("ood"):      # (outside B-02 an empty fold is no violation)
             c["hooks"] = True
     ctx.phase("driving")
     traces = drive(ctx, cases)
